@@ -7,6 +7,7 @@
 #include "llvm/IR/DataLayout.h"
 #include "llvm/IR/DebugInfoMetadata.h"
 #include "llvm/IR/DebugLoc.h"
+#include "llvm/BinaryFormat/Dwarf.h"
 #include "llvm/IR/Dominators.h"
 #include "llvm/IR/Function.h"
 #include "llvm/IR/GetElementPtrTypeIterator.h"
@@ -49,6 +50,67 @@ static std::string tystr(Type* t) {
   raw_string_ostream os(s);
   t->print(os);
   return os.str();
+}
+
+
+
+static const DIType* peelTop(const DIType* T) {
+  int g = 0;
+  while (T && g++ < 12) {
+    if (auto* D = dyn_cast<DIDerivedType>(T)) {
+      unsigned tag = D->getTag();
+      if (tag == dwarf::DW_TAG_const_type || tag == dwarf::DW_TAG_volatile_type || tag == dwarf::DW_TAG_restrict_type ||
+          tag == dwarf::DW_TAG_typedef) {
+        T = D->getBaseType();
+        continue;
+      }
+    }
+    break;
+  }
+  return T;
+}
+static std::string ditype(const DIType* T, int depth = 0) {
+  if (!T) return "void";
+  if (depth > 12) return "?";
+  if (auto* D = dyn_cast<DIDerivedType>(T)) {
+    unsigned tag = D->getTag();
+    if (tag == dwarf::DW_TAG_pointer_type) return ditype(D->getBaseType(), depth + 1) + "*";
+    if (tag == dwarf::DW_TAG_const_type) {
+      const DIType* B = D->getBaseType();
+      if (B && isa<DIDerivedType>(B) && cast<DIDerivedType>(B)->getTag() == dwarf::DW_TAG_pointer_type)
+        return ditype(B, depth + 1) + " const";
+      return "const " + ditype(B, depth + 1);
+    }
+    if (tag == dwarf::DW_TAG_typedef) return D->getName().str();
+    if (tag == dwarf::DW_TAG_volatile_type) return "volatile " + ditype(D->getBaseType(), depth + 1);
+    if (tag == dwarf::DW_TAG_restrict_type) return ditype(D->getBaseType(), depth + 1);
+    return D->getName().str();
+  }
+  if (auto* C = dyn_cast<DICompositeType>(T)) {
+    if (C->getTag() == dwarf::DW_TAG_array_type) return ditype(C->getBaseType(), depth + 1) + "[]";
+    return (C->getTag() == dwarf::DW_TAG_structure_type ? "struct " : "") + C->getName().str();
+  }
+  if (isa<DISubroutineType>(T)) return "fn";
+  return T->getName().str();
+}
+// parameter is a pointer whose pointee is const-qualified
+static bool constPointee(const DIType* T) {
+  const DIType* P = peelTop(T);
+  auto* D = P ? dyn_cast<DIDerivedType>(P) : nullptr;
+  if (!D || D->getTag() != dwarf::DW_TAG_pointer_type) return false;
+  const DIType* X = D->getBaseType();
+  int g = 0;
+  while (X && g++ < 12) {
+    if (auto* XD = dyn_cast<DIDerivedType>(X)) {
+      if (XD->getTag() == dwarf::DW_TAG_const_type) return true;
+      if (XD->getTag() == dwarf::DW_TAG_typedef || XD->getTag() == dwarf::DW_TAG_volatile_type) {
+        X = XD->getBaseType();
+        continue;
+      }
+    }
+    break;
+  }
+  return false;
 }
 
 struct Dumper {
@@ -236,6 +298,30 @@ struct Dumper {
     O << ",\"vararg\":" << (F.isVarArg() ? "true" : "false");
     if (DISubprogram* SP = F.getSubprogram())
       O << ",\"loc\":" << jstr(SP->getFilename().str() + ":" + std::to_string(SP->getLine()));
+    if (DISubprogram* SP = F.getSubprogram()) {
+      if (DISubroutineType* ST = SP->getType()) {
+        DITypeRefArray TA = ST->getTypeArray();
+        if (TA.size() > 0) {
+          std::map<unsigned, std::string> names;
+          for (auto& BB : F)
+            for (auto& I : BB)
+              if (auto* DV = dyn_cast<DbgVariableIntrinsic>(&I)) {
+                DILocalVariable* V = DV->getVariable();
+                if (V && V->getArg() > 0 && V->getScope()->getSubprogram() == SP) names[V->getArg()] = V->getName().str();
+              }
+          O << ",\"dbgargs\":[";
+          for (unsigned k = 1; k < TA.size(); ++k) {
+            if (k > 1) O << ",";
+            bool cp = constPointee(TA[k]);
+            std::string t = ditype(TA[k]);
+            O << "{\"ty\":" << jstr(t) << ",\"constptr\":" << (cp ? "true" : "false") << ",\"name\":"
+              << jstr(names.count(k) ? names[k] : std::string("")) << "}";
+          }
+          O << "]";
+          O << ",\"dbgret\":" << jstr(ditype(TA[0]));
+        }
+      }
+    }
     O << ",\"args\":[";
     for (auto& A : F.args()) {
       if (A.getArgNo()) O << ",";
